@@ -2,6 +2,8 @@ package hx
 
 import (
 	"net"
+	"os"
+	"path/filepath"
 	"sync"
 	"time"
 
@@ -15,18 +17,39 @@ type Bridge struct {
 	Port int
 	ln   net.Listener
 	wg   sync.WaitGroup
+	dir  string
 }
 
 // ServeTCP accepts exactly one connection.
 func ServeTCP(c *refsmtp.Conn) (*Bridge, error) { return ServeTCPAt(c, "127.0.0.1:0") }
 
 // ServeTCPAt is ServeTCP on a given listen address.
-func ServeTCPAt(c *refsmtp.Conn, addr string) (*Bridge, error) {
-	ln, err := net.Listen("tcp", addr)
+func ServeTCPAt(c *refsmtp.Conn, addr string) (*Bridge, error) { return serveAt(c, "tcp", addr) }
+
+// ServeUnix serves c on a fresh UNIX domain socket (Addr is its path; the directory is removed by Stop).
+func ServeUnix(c *refsmtp.Conn) (*Bridge, error) {
+	dir, err := os.MkdirTemp("", "vfsock")
 	if err != nil {
 		return nil, err
 	}
-	b := &Bridge{Addr: ln.Addr().String(), Port: ln.Addr().(*net.TCPAddr).Port, ln: ln}
+	b, err := serveAt(c, "unix", filepath.Join(dir, "s"))
+	if err != nil {
+		_ = os.RemoveAll(dir)
+		return nil, err
+	}
+	b.dir = dir
+	return b, nil
+}
+
+func serveAt(c *refsmtp.Conn, network, addr string) (*Bridge, error) {
+	ln, err := net.Listen(network, addr)
+	if err != nil {
+		return nil, err
+	}
+	b := &Bridge{Addr: ln.Addr().String(), ln: ln}
+	if ta, ok := ln.Addr().(*net.TCPAddr); ok {
+		b.Port = ta.Port
+	}
 	b.wg.Add(1)
 	go func() {
 		defer b.wg.Done()
@@ -68,4 +91,7 @@ func ServeTCPAt(c *refsmtp.Conn, addr string) (*Bridge, error) {
 func (b *Bridge) Stop() {
 	_ = b.ln.Close()
 	b.wg.Wait()
+	if b.dir != "" {
+		_ = os.RemoveAll(b.dir)
+	}
 }
